@@ -401,6 +401,8 @@ func (e *emitter) reexec(line string) bool {
 		e.ppair(string(unhx(f[1])), string(unhx(f[2])))
 	case "FULL":
 		e.full(parseName(f[1]))
+	case "CSHIT":
+		e.cshit(parseName(f[1]), parseName(f[2]))
 	default:
 		return false
 	}
@@ -720,7 +722,8 @@ func runFixed(e *emitter) {
 	// structural witnesses named in the notes (informational: model and implementation must agree on them)
 	a := enc.Name{{Typ: 8, Val: []byte{0, 0, 0, 0, 0, 0, 0, 8}}}
 	b := enc.Name{{Typ: 8, Val: []byte{}}, {Typ: 8, Val: []byte{}}}
-	e.pair(a, b) // same hash input, different names
+	e.pair(a, b) // same hash input before the HashInto fix, different names
+	e.cshit(a, b)
 	c := enc.Name{{Typ: 50, Val: []byte{0, 5}}}
 	d := enc.Name{{Typ: 50, Val: []byte{5}}}
 	e.pair(c, d) // same String(), different names
@@ -911,6 +914,9 @@ func runGenerated(e *emitter, g *gen, ncases int, thorough bool) {
 		}
 		if i%10 == 0 {
 			e.full(u)
+			if len(a) > 0 && len(b) > 0 && len(a.Bytes()) < 4000 && len(b.Bytes()) < 4000 {
+				e.cshit(a, b)
+			}
 		}
 		// parser inputs: grammar soup, mostly-good URIs, damaged good URIs (the malformed stream)
 		s := g.uriString()
